@@ -426,6 +426,8 @@ def cosine_dist(u, v):
 
 # ------------------------------------------------------------------ C13
 def gen_c13(rng, tier):
+    if rng.random() < 0.2:
+        return {"base": gen.gen_two_stage_warm(rng, with_final=False, label=rng.choice(["int", "int", "str", "float"])), "seed2": rng.randint(0, 10**9)}
     if rng.random() < 0.7:
         base = gen.gen_cf_case(rng, kinds=["greedy", "ucb", "softmax", "thompson", "popularity"], max_ops=6, warm=True, queries=False,
                                label=rng.choice(["int", "int", "str", "float", "negint"]))
@@ -1213,8 +1215,33 @@ def run_c05(t):
     return True, {}
 
 # ------------------------------------------------------------------ C04
+def gen_tree_added_arm(rng):
+    """TreeBandit: fit -> add_arm -> partial_fit whose rows for the new arm differ in every feature (several equally
+    good first splits) -> queries routed differently by the tied features"""
+    c = gen.gen_ctx_case(rng, nps=["tree"], lps=["ucb", "greedy"], max_ops=0, queries=False, force_dim=rng.randint(2, 4), label=rng.choice(["str", "int", "float"]))
+    if c["lp"][0] == "greedy":
+        c["lp"] = ("greedy", 0.0)
+    d = len(c["ops"][0][3][0])
+    new = 20
+    c["ops"].append(("add", new, None))
+    k = rng.randint(2, 3)
+    lo = [float(rng.randint(0, 1)) for _ in range(d)]
+    rows = [[lo[j] + 2.0 * i for j in range(d)] for i in range(k)]
+    rs = [float(i) for i in range(k)]
+    extra = rng.randint(0, 3)
+    ds = [new] * k + [rng.choice(c["arms"]) for _ in range(extra)]
+    c["ops"].append(("pfit", ds, rs + [float(rng.randint(0, 3)) for _ in range(extra)], rows + gen.gen_ctx(rng, extra, d, 0, 4)))
+    qs = []
+    for _ in range(4):
+        q = [lo[j] + 2.0 * rng.randint(0, k - 1) for j in range(d)]
+        qs.append(q)
+    c["ops"].append(("pexp", qs)); c["ops"].append(("pred", qs))
+    return c
+
 def gen_c04(rng, tier, lints_nbhd=True):
     z = rng.random()
+    if z > 0.93:
+        return gen_tree_added_arm(rng)
     if z < 0.45:
         import props as P
         c = P.g_c13(rng, tier); c["label"] = rng.choice(["str", "str", "str", "int"])
@@ -1547,6 +1574,24 @@ def run_c16(t):
         nn = type(mab).__name__ in ("_RadiusSimulator", "_KNearestSimulator", "_LSHSimulator")
         nstats = sim.bandit_to_arm_to_stats_neighborhoods.get(name) if (nn and not t["is_quick"]) else None
         res = {}
+        npol = b.get("np")
+        cxa = np.asarray(t["cx"], dtype=float)
+        def indep_nstat(i, p):
+            """None: not recomputed here; {}: no neighbour took arm p; else the statistics of the neighbours' rewards for p"""
+            if not (nstats is not None and npol and npol[0] == "radius" and npol[2] in ("cityblock", "chebyshev", "sqeuclidean", "euclidean")):
+                return None
+            from scipy.spatial.distance import cdist
+            bs_ = t["batch_size"]
+            hist = list(tr) + ([] if bs_ == 0 else ti[:(i // bs_) * bs_])
+            if not hist:
+                return None
+            dd = cdist(cxa[hist], cxa[ti[i]][np.newaxis, :], metric=npol[2]).reshape(-1)
+            # rows at (numerically) exactly the radius are ambiguous: leave them to the library comparison (C15)
+            if np.any(np.abs(dd - npol[1]) <= 1e-9 * max(1.0, abs(npol[1]))):
+                return None
+            sel = [h for h, x in zip(hist, dd) if x <= npol[1]]
+            mine = [rs[h] for h in sel if ds[h] == p]
+            return np_stats(mine) if mine else {}
         for stat, table in (("min", sim.bandit_to_arm_to_stats_min), ("mean", sim.bandit_to_arm_to_stats_avg), ("max", sim.bandit_to_arm_to_stats_max)):
             got = table[name]["total"] if t["batch_size"] > 0 else table[name]
             credited = {a: [] for a in arms}
@@ -1557,8 +1602,15 @@ def run_c16(t):
                     v = None
                     if nstats is not None:
                         row = nstats[i]
-                        if row and row.get(p):
+                        # a neighbourhood statistic exists only when some neighbour took the arm (a zero-count record is none)
+                        if row and row.get(p) and row[p].get("count", 1) != 0:
                             v = row[p][stat]
+                        own = indep_nstat(i, p)
+                        if own is not None:
+                            # independent recomputation of the neighbourhood (Radius, plain metrics)
+                            w = own[stat] if own else None
+                            if (w is None) != (v is None) or (w is not None and abs(w - v) > 1e-9 * max(1.0, abs(w))):
+                                return False, {"why": "bandit %s, test row %d: the neighbourhood statistic of the predicted arm %r is %r, direct recomputation over the rows within the radius gives %r" % (name, i, p, v, w)}
                     if v is None:
                         v = sim.arm_to_stats_train[p][stat]
                     credited[p].append(v)
